@@ -111,7 +111,8 @@ def _serialize_element(
             del schema["required"]
     if schema.get("items") == []:
         # Draft 6 has no empty tuple: every item is an additional item.
-        schema["items"] = schema.pop("additionalItems", True)
+        additional = schema.pop("additionalItems", True)
+        schema["items"] = Element() if additional is True else additional
     if isinstance(element, CompositionElement):
         schema[element.mode] = element.elements
     if isinstance(element, Not):
